@@ -1505,6 +1505,9 @@ class Executor:
     def getattr(self, base, attr, node, frame=None):
         if isinstance(base, ObjV):
             if attr in base.fields:
+                if base.abstract and attr == "min_size" and node is not None:
+                    # the minimum size of a scorer may depend on the data it was fitted on (p + 1 for a covariance cost)
+                    self.emit("scorer_min_size", node, obj=base, fitted_on=base.meta.get("fitted_on"))
                 return base.fields[attr]
             if base.abstract:
                 r = self.models.obj_attr(self, base, attr, node)
